@@ -121,14 +121,29 @@ def make_args(ad, spec):
     return ad.rand_args(spec['N'], spec['C'], spec['in_seed'], 'randn', dt)
 
 
-def evaluate(ad, spec, with_grad):
+def strided_view(a):
+    """the same values behind a non-contiguous layout (storage transposed in the last two axes)"""
+    if a.dim() < 3:
+        return a
+    return a.transpose(-1, -2).contiguous().transpose(-1, -2)
+
+
+def evaluate(ad, spec, with_grad, no_grad_ctx=False, strided=False, keep=None):
     """-> (record, arrays).  record: {'raised': type} or {'outs': [tinfo], 'grads': [tinfo]}"""
     import torch
     args = make_args(ad, spec)
+    if strided:
+        args = [strided_view(a) for a in args]
     if with_grad:
         args = [a.requires_grad_(True) for a in args]
     try:
-        outs = ad.apply(args)
+        if no_grad_ctx:
+            with torch.no_grad():
+                outs = ad.apply(args)
+        else:
+            outs = ad.apply(args)
+        if keep is not None:
+            keep.append(([tinfo(o)['digest'] for o in outs], outs))
     except inject.InjectedFault:
         raise
     except Exception as e:
@@ -311,24 +326,43 @@ def hist_main(specfile, cfgjson, out):
             else:
                 spec = specs[rnd.randrange(len(specs))] if rnd.random() < 0.85 else specs[rnd.randrange(min(12, len(specs)))]
             with_grad = rnd.random() < (0.0 if burst else 0.3)
+            nograd_ctx = (not with_grad) and rnd.random() < 0.25          # the same call inside torch.no_grad()
+            strided = (not burst) and rnd.random() < 0.15                  # same values, non-contiguous arguments
             fresh = rnd.random() < (0.0 if burst else 0.05 if hot else 0.2)
             fault = cfg.get('faults') and rnd.random() < 0.08
-            ev = {'thread': tid, 'k': k, 'spec': spec['id'], 'grad': with_grad, 'fresh': fresh, 'fault': bool(fault)}
+            ev = {'thread': tid, 'k': k, 'spec': spec['id'], 'grad': with_grad, 'fresh': fresh, 'fault': bool(fault),
+                  'no_grad_ctx': nograd_ctx, 'strided': strided}
             log(dict(ev, ev='call'))
             try:
                 ad, constructed = get_module(spec, rnd, fresh)
                 if fault:
                     inject.arm_fault(rnd.randrange(1, 60))
                 try:
-                    rec, arrays = evaluate(ad, spec, with_grad)
+                    rec, arrays = evaluate(ad, spec, with_grad, nograd_ctx, strided,
+                                           keep=kept[tid] if (k % 3 == 0 and not fault) else None)
                 finally:
                     inject.disarm()
                 verdict, detail = compare(spec, rec, arrays, with_grad)
+                if strided and verdict in ('ulp', 'differs') and table.get(spec['id']) and 'raised' not in rec:
+                    # a different memory layout may pick another kernel / summation order: for these calls
+                    # equality is judged norm-wise at rounding level (C16's bound), not bit-wise
+                    ref0 = np.load(os.path.join(WORK, 'ref-%d.json.npz' % spec['id']))
+                    want = [ref0['a%d' % i] for i in range(len(ref0.files))]
+                    if with_grad:
+                        refg = np.load(os.path.join(WORK, 'ref-%d.json.g.npz' % spec['id']))
+                        want += [refg['a%d' % i] for i in range(len(ref0.files), len(refg.files))]
+                    if len(want) == len(arrays) and all(a.shape == w_.shape for a, w_ in zip(arrays, want)):
+                        eps = float(np.finfo(arrays[0].dtype).eps)
+                        bound = 64 * eps * max(1.0, ad.gain) ** 2 * 8.0
+                        err = max([float(np.abs(a.astype(np.float64) - w_.astype(np.float64)).max()) for a, w_ in zip(arrays, want) if a.size] or [0.0])
+                        verdict, detail = ('same', None) if err <= bound else ('differs', 'strided arguments: differs from the '
+                                                                              'contiguous fresh reference by %.3e (bound %.3e)' % (err, bound))
                 log(dict(ev, ev='return', verdict=verdict, detail=detail, raised=rec.get('raised'), constructed=constructed))
             except inject.InjectedFault as e:
                 log(dict(ev, ev='return', verdict='faulted', detail=str(e)))
             except Exception as e:
                 log(dict(ev, ev='return', verdict='error', detail='%s: %s' % (type(e).__name__, e)))
+    kept = {i: [] for i in range(max(1, nthreads))}     # returned tensors re-examined at the end of the history
     t0 = time.time()
     if nthreads == 1:
         worker(0)
@@ -338,7 +372,17 @@ def hist_main(specfile, cfgjson, out):
             t.start()
         for t in ths:
             t.join()
+    # late check: tensors returned earlier must still hold what they held when they were returned
+    late_checked, late_bad = 0, []
+    for tid, lst in kept.items():
+        for digs, outs in lst:
+            late_checked += 1
+            now = [tinfo(o)['digest'] for o in outs]
+            if now != digs:
+                late_bad.append({'thread': tid, 'detail': 'a tensor returned earlier in the history changed its contents afterwards'})
     generic = attach.drain()
+    for lb in late_bad[:5]:
+        generic.append({'monitor': 'M-HIST.late', 'where': 'returned tensors', 'detail': lb['detail'], 'thread': str(lb['thread'])})
     sig = hashlib.sha1(json.dumps([(e['thread'], e['spec'], e['ev']) for e in events]).encode()).hexdigest()[:16]
     overlaps = 0
     open_calls = set()
@@ -356,7 +400,7 @@ def hist_main(specfile, cfgjson, out):
     except Exception:
         pass
     json.dump({'cfg': cfg, 'events': events, 'generic': generic, 'signature': sig, 'overlapping_calls': overlaps,
-               'inject': inject.stats(), 'monitor_counts': dict(attach.COUNTS), 'mutating_ops': dict(attach.MUTATING),
+               'late_checked': late_checked, 'inject': inject.stats(), 'monitor_counts': dict(attach.COUNTS), 'mutating_ops': dict(attach.MUTATING),
                'ops_seen': int(sum(attach.CENSUS.values())), 'cache': cache, 'wall': time.time() - t0},
               open(out, 'w'), default=str)
 
@@ -478,7 +522,12 @@ def driver(tier, seed, t0):
             seen.add(k)
             results.append(res(VIOLATED, {'history': i, 'threads': hc['threads'], 'hist_seed': hc['seed'], 'where': g['where'],
                                           'thread': g['thread']}, g['monitor'], g['detail'], history_file=out))
-        for m in ('M-ARG', 'M-INV', 'M-DISP', 'M-CACHE'):
+        if d.get('late_checked'):
+            mcounts['M-HIST.late'] = mcounts.get('M-HIST.late', 0) + d['late_checked']
+            if not any(g['monitor'] == 'M-HIST.late' for g in d['generic']):
+                results.append(res(HELD, {'history': i, 'threads': hc['threads'], 'returned_tensors_reexamined': d['late_checked']},
+                                   'M-HIST.late', 'contents unchanged at the end of the history', ratio=0.0))
+        for m in ('M-ARG', 'M-INV', 'M-DISP', 'M-CACHE', 'M-GLOBAL'):
             n = d['monitor_counts'].get(m, 0)
             bad = sum(1 for g in d['generic'] if g['monitor'].startswith(m))
             if n and not bad:
